@@ -193,12 +193,34 @@ pub assume_specification<T: Ord>[std::cmp::max::<T>](a: T, b: T) -> (r: T)
     ensures r == a || r == b;
 pub assume_specification<T: Ord>[std::cmp::min::<T>](a: T, b: T) -> (r: T)
     ensures r == a || r == b;
-// JoinFn: the map/collect/join pipeline is replaced by one TRUSTED stub (its closure nest is outside Verus)
-pub uninterp spec fn join_spec(glue: Seq<char>, parts: Seq<Rcvar>) -> Seq<char>;
+// JoinFn, from the function specification: the elements of the array joined with the glue between them, in order
+pub open spec fn join_strs(glue: Seq<char>, parts: Seq<Seq<char>>) -> Seq<char>
+    decreases parts.len()
+{
+    if parts.len() == 0 { Seq::empty() }
+    else if parts.len() == 1 { parts[0] }
+    else { join_strs(glue, parts.drop_last()) + glue + parts.last() }
+}
+pub open spec fn join_spec(glue: Seq<char>, parts: Seq<Rcvar>) -> Seq<char> {
+    join_strs(glue, Seq::new(parts.len(), |i: int| (*parts[i])->String_0@))
+}
+pub open spec fn strs_view(v: Seq<String>) -> Seq<Seq<char>> { Seq::new(v.len(), |i: int| v[i]@) }
+// T2: `iter().map(f).collect::<Result<Vec<String>, _>>()` (one result per element, in order, each produced by f; an
+// error from f is returned) and `[String]::join`
 #[verifier::external_body]
-pub fn stub_join_strings(values: &Vec<Rcvar>, glue: &String) -> (r: Result<String, JmespathError>)
-    ensures (forall|i: int| 0 <= i < values@.len() ==> (*#[trigger] values@[i]) is String) ==> (r matches Ok(s) && s@ == join_spec(glue@, values@)),
-{ unimplemented!() }
+pub fn idiom_try_map_collect_strings<F: Fn(&Rcvar) -> Result<String, JmespathError>>(values: &Vec<Rcvar>, f: F) -> (r: Result<Vec<String>, JmespathError>)
+    requires forall|i: int| 0 <= i < values@.len() ==> f.requires((&values@[i],)),
+    ensures
+        r matches Ok(out) ==> out@.len() == values@.len() && forall|i: int| 0 <= i < out@.len() ==> f.ensures((&values@[i],), Ok(#[trigger] out@[i])),
+        r matches Err(e) ==> exists|i: int| 0 <= i < values@.len() && f.ensures((&values@[i],), Err(e)),
+{ values.iter().map(f).collect::<Result<Vec<String>, JmespathError>>() }
+#[verifier::external_body]
+pub fn idiom_string_ref_to_owned(s: &String) -> (r: String) ensures r@ == s@ { s.to_owned() }
+pub trait JoinIdiom { fn idiom_join(&self, glue: &str) -> String; }
+impl JoinIdiom for Vec<String> {
+    #[verifier::external_body]
+    fn idiom_join(&self, glue: &str) -> (r: String) ensures r@ == join_strs(glue@, strs_view(self@)) { self.join(glue) }
+}
 pub uninterp spec fn fmt_expr_type(t: JmespathType) -> Seq<char>;
 #[verifier::external_body]
 pub fn idiom_format_expr_type(t: &JmespathType) -> (r: String) ensures r@ == fmt_expr_type(*t) { format!("expression->{}", t) }
